@@ -124,6 +124,29 @@ Definition write_strf (s : obuf) (fmted : list byte) : result (obuf * list tchun
 Definition set_output_buffer (s : obuf) (len : Z) : obuf :=
   mkOB len [] (has_func s) (has_fd s).
 
+(* tickit_term_set_output_buffer(tt, len) whose malloc(len) FAILS (len too large): the C
+   stores outbuffer = NULL, outbuffer_len = len, outbuffer_cur = 0.  write_str tests the
+   pointer, so the terminal is unbuffered; outbuffer_len is read only inside the buffered
+   branch and by nobody while the pointer is NULL.  In this model cap stands for "outbuffer_len
+   of an existing buffer" (outbuffer != NULL iff cap > 0), hence cap = 0. *)
+Definition set_output_buffer_failed (s : obuf) (len : Z) : obuf :=
+  mkOB 0 [] (has_func s) (has_fd s).
+
+(* tickit_term_teardown: `if(driver && state != UNSTARTED) { driver->stop; state = UNSTARTED; }
+   if(termkey) termkey_stop; tickit_term_flush(tt);`.  The UNSTARTED/STARTING state only decides
+   whether the driver's optional start/stop hooks are called; the harness' driver has neither and
+   there is no termkey instance, so what remains is the flush -- which must happen whatever the
+   state is. *)
+Definition teardown (s : obuf) : obuf * list tchunk := flush s.
+
+(* tickit_term_destroy (the last tickit_term_unref): tickit_term_teardown, the driver's destroy,
+   then its own tickit_term_flush; the output function's final call with bytes == NULL is not a
+   chunk *)
+Definition destroy (s : obuf) : obuf * list tchunk :=
+  let '(s1, d1) := teardown s in
+  let '(s2, d2) := flush s1 in
+  (s2, d1 ++ d2).
+
 (* tickit_term_set_output_func: [b] = a function is given (false: NULL, the function is
    removed).  The old function gets one call with bytes == NULL, which is not a chunk;
    pending bytes stay in the buffer. *)
@@ -135,7 +158,10 @@ Inductive op :=
 | OWrite (mem : list byte) (len : Z)   (* tickit_termdrv_write_str(ttd, mem, len) *)
 | OWritef (fmted : list byte)          (* tickit_termdrv_write_strf(ttd, fmt, ...) producing fmted *)
 | OFlush
+| OTeardown                            (* tickit_term_teardown *)
+| ODestroy                             (* the last tickit_term_unref *)
 | OSetBuf (n : Z)
+| OSetBufFail (n : Z)                  (* tickit_term_set_output_buffer(tt, n), malloc(n) fails *)
 | OSetFunc (b : bool)
 | OSetFd (b : bool).
 
@@ -144,7 +170,10 @@ Definition step (s : obuf) (o : op) : result (obuf * list tchunk) :=
   | OWrite mem len => write_str s mem len
   | OWritef f => write_strf s f
   | OFlush => Ok (flush s)
+  | OTeardown => Ok (teardown s)
+  | ODestroy => Ok (destroy s)
   | OSetBuf n => if n <? 0 then Fault else Ok (set_output_buffer s n, [])
+  | OSetBufFail n => if n <? 0 then Fault else Ok (set_output_buffer_failed s n, [])
   | OSetFunc b => Ok (set_output_func s b, [])
   | OSetFd b => Ok (set_output_fd s b, [])
   end.
